@@ -1,6 +1,7 @@
 """C17 -- SSC to SM conversion applies the caller's policy to every SSC-only property."""
 import copy
 import random
+import re
 from itertools import product
 
 from ..ref import dictmodel as M
@@ -274,7 +275,7 @@ def run_one(ctx, source, mapping, case, label):
         ctx.mon("first_offender_named")
         if got[0] != "InvalidPropertyException":
             ctx.violation(f"{label}:expected-InvalidPropertyException-got-{got[0]}", dict(detail, want=want, got=repr(got)[:300]))
-        elif repr(want[1]) not in got[1]:
+        elif not re.search(r"(?<![A-Za-z0-9_])" + re.escape(want[1]) + r"(?![A-Za-z0-9_])", got[1]):
             ctx.violation(f"{label}:exception-does-not-name-the-first-offender", dict(detail, first_offender=want[1], message=got[1]))
     elif got != want:
         ctx.violation(f"{label}:{want[0]}-vs-{got[0]}", dict(detail, want=repr(want)[:500], got=repr(got)[:500]))
